@@ -243,6 +243,7 @@ type Plan struct {
 	BadLeft                 int  // Begin is answered driver.ErrBadConn this many times first
 	CommitPanics, RbPanics  bool // the driver's Commit / Rollback panics
 	CommitErr, RbErr        error // what a failing Commit / Rollback returns (nil: a plain marked error)
+	Hung                    bool  // a call of an earlier par op never came back: no further par op is run on this driver
 	TagConn                 bool  // every log token carries the connection it arrived on (@<id>): concurrent transactions
 	nextConn                int
 	log                     []string
@@ -1020,6 +1021,9 @@ func RunPar(op []string, h Hooks) string {
 	if strings.Trim(sched, "01") != "" {
 		return "bad-op par sched"
 	}
+	if h.Plan.Hung {
+		return "log=- ret0=hung runs0=0 ret1=hung runs1=0"
+	}
 	h.Plan.Reset(true, true, true)
 	h.Plan.mu.Lock()
 	h.Plan.TagConn = true
@@ -1072,12 +1076,21 @@ func RunPar(op []string, h Hooks) string {
 			}, &mark, &core)
 		}()
 	}
+	// a call that neither reaches its next step nor returns (it runs some OTHER body, e.g. one kept from an earlier
+	// call, which waits for a scheduler that is gone) is given up after a generous while: reported as `hung`
+	var hung [2]bool
 	wait := func(t int) {
 		for status[t] == running {
-			if e := <-events[t]; e.fin {
-				status[t] = finished
-			} else {
-				status[t] = atPoint
+			select {
+			case e := <-events[t]:
+				if e.fin {
+					status[t] = finished
+				} else {
+					status[t] = atPoint
+				}
+			case <-time.After(5 * time.Second):
+				status[t], hung[t] = finished, true
+				h.Plan.Hung = true
 			}
 		}
 	}
@@ -1110,6 +1123,9 @@ func RunPar(op []string, h Hooks) string {
 		r := Classify(rets[t], h.Extra)
 		if escaped[t] != nil {
 			r = "PANIC"
+		}
+		if hung[t] {
+			r = "hung"
 		}
 		out += fmt.Sprintf(" ret%d=%s runs%d=%d", t, r, t, runs[t])
 	}
